@@ -184,7 +184,10 @@ RECURSIVE FirstExpl(_, _, _, _, _)
 FirstExpl(cs, s0, kk, ist, d) ==
     IF d > Len(DevSets) THEN 0
     ELSE LET dref == RunSrc(cs, s0, kk, {DevSets[d][j] : j \in 1..Len(DevSets[d])})
-         IN  IF ~dref.unspec /\ ~dref.diverged /\ Agree(cs, dref, ist) /\ RetAgree(cs, dref, ist) THEN d
+         \* explained: the deviant semantics reproduces the observed result -- or makes the program undefined on this input
+         \* (the strict semantics is defined here, so the deviation is exercised: e.g. a zero-extended operand turns a
+         \* shift count of 0 into 2^32 * k)
+         IN  IF dref.unspec \/ (~dref.diverged /\ Agree(cs, dref, ist) /\ RetAgree(cs, dref, ist)) THEN d
              ELSE FirstExpl(cs, s0, kk, ist, d + 1)
 
 CheckOne(cs, o, s0, ref, ist, ist1, kk) ==
